@@ -265,7 +265,7 @@ Definition cseli (seed i k : int) : int := ((13 * i + 7 * k + seed) mod 5)%uint6
 Definition csel (seed i k : N) : nat := N.to_nat (N_of_int (cseli (int_of_N seed) (int_of_N i) (int_of_N k))).
 Definition cword (seed i k : N) : N := nth (csel seed i k) [0; 1048576000; 1056964608; 1061158912; 1065353216] 0.
 Definition cbyte (seed i k : N) : N := nth (csel seed i k) [0; 64; 128; 191; 255] 0.
-Definition bidxi (n seed c : int) : int := ((5 * c + seed + c / 3) mod n)%uint63.
+Definition bidxi (n seed c : int) : int := ((7919 * c + seed + c / 3) mod n)%uint63.
 Definition bidx (p : bigp) (c : N) : N := N_of_int (bidxi (int_of_N (bp_n p)) (int_of_N (bp_seed p)) (int_of_N c)).
 (* 0, 1, ..., k-1 as binary numbers *)
 Fixpoint nseq (k : nat) (start : N) : list N := match k with O => [] | S k' => start :: nseq k' (N.succ start) end.
